@@ -827,3 +827,74 @@ def c14(r):
                 return True
         return False
     r.negctl("Trace_Holiday", ch_w[:4], {"C14Work": [(wk, "C14.workday."), (sal, "C14.salaryRate")]})
+
+
+# --------------------------------------------------------------------- C09
+@plan("C09", "model_checking")
+def c09(r):
+    thorough = r.tier == "thorough"
+    r.rule = ("TLC model-checks Cache.tla (lock + one-slot cache protocol of NewLunarYear, one action per trace point): %s; mutual exclusion, "
+              "cache never exposes an unfinished year, result = table of the requested year, lock free when idle, progress under weak "
+              "fairness. Two hazard configurations are kept as documentation of what the binding must exclude (a year whose computation "
+              "panics leaks the lock; a lazily initialised field races): TLC is expected to find those violations. Every lock-acquisition "
+              "order of the model (%s) is forced on real goroutines through the blocking gate hook and the hook trace is folded through the "
+              "protocol by Trace_Cache; every call sequence of length <= %d over an alphabet of 9 calls (3 years incl. a leap-11 year, month "
+              "walking across years, two invalid calls that panic and are recovered) is executed in one process and each result compared with "
+              "its reference; a -race build runs 16 goroutines of mixed calls plus rounds of 8 goroutines reading one fresh shared object, "
+              "race reports become events that no action accepts. Distinct non-trivial case = distinct schedule or history." %
+              ("4 processes x 2 calls (12M states) and 3 x 2 with liveness" if thorough else "3 processes x 2 calls x 2 years (97k states)",
+               "2520 orders of 4x2" if thorough else "90 orders of 3x2", 5 if thorough else 4))
+    r.assumptions += ["interleavings are exhaustive at lock granularity for 3-4 goroutines; below that granularity the Go race detector observes executed schedules only",
+                      "NewLunarYear's computation is total (no panic under the lock): observed for years -2000..12000 in this run, not proved"]
+    r.build()
+    r.build(race=True)
+    r.mc("MC_Cache", "MC_Cache", timeout=600)
+    if thorough:
+        r.mc("MC_Cache", "MC_Cache_4", timeout=1800, heap="24g")
+    # hazard configurations: the model must exhibit the hazards (otherwise the model lost them)
+    for cfg, inv in (("MC_Cache_bad", "NoLockLeak"), ("MC_Cache_lazy", "NoRace")):
+        info, out = r.mc("MC_Cache", cfg, expect_ok=False)
+        if "Invariant %s is violated" % inv not in out:
+            raise Infra("hazard configuration %s no longer exhibits the %s hazard" % (cfg, inv))
+        r.cov["mc_runs"][-1]["expected_violation"] = inv
+    orders = r.export_edges("MC_Cache", "MBT_Cache_4" if thorough else "MBT_Cache")
+    of = os.path.join(r.dir, "orders.txt")
+    write_lines(of, [o.replace("<<", "").replace(">>", "").replace(",", " ") for o in orders])
+    r.cov["replayed_edges"] = len(orders)
+    ch_s = r.drive("c09sched", args={"orders": of}, maxlines=0, shards=4)
+    r.validate("Trace_Cache", ch_s)
+    ch_h = r.drive("c09hist", args={"len": 5 if thorough else 4}, maxlines=4000)
+    r.validate("Trace_Cache", ch_h)
+    # totality of the computation under the lock
+    ch_t = r.drive("c09total", maxlines=0, shards=8)
+    r.validate("Trace_Cache", ch_t)
+    racelog = os.path.join(r.dir, "racelog")
+    ch_r = r.drive("c09stress", race=True, shards=2, maxlines=0, args={"ms": 60000 if thorough else 3000, "rounds": 600 if thorough else 60},
+                   env={"VERIF_RACE_LOG": racelog, "GORACE": "log_path=%s halt_on_error=0" % racelog})
+    r.validate("Trace_Cache", ch_r)
+    r.sample_from([ch_s[0], ch_h[0]])
+    r.cov["samples"] = [s[:500] for s in r.cov["samples"]]
+    r.count_distinct(ch_s + ch_h, lambda e: tuple(e["order"]) if e.get("ev") == "C09Run" else (tuple(e["seq"]) if e.get("ev") == "C09Hist" else None))
+    def drop_release(e):
+        for i, ev in enumerate(e["events"]):
+            if ev[1] == "released":
+                del e["events"][i]
+                return True
+        return False
+    def swap_hit(e):
+        for ev in e["events"]:
+            if ev[1] == "hit":
+                ev[1] = "miss"
+                return True
+        return False
+    def dig(e):
+        e["calls"][0][3] = "0" * 12
+        return True
+    def lockheld(e):
+        e["lockfree"] = 0
+        return True
+    r.negctl("Trace_Cache", ch_s[0], {"C09Run": [(drop_release, "C09.protocol."), (swap_hit, "C09.protocol."), (dig, "C09.result.independent-of-schedule"), (lockheld, "C09.lock.left-held")]})
+    def hdig(e):
+        e["calls"][-1][1] = "x"
+        return True
+    r.negctl("Trace_Cache", ch_h[0], {"C09Hist": [(hdig, "C09.result.independent-of-history")]})
